@@ -1,6 +1,7 @@
 (** C04 — Decoding untrusted bytes is total and resource-bounded (Value, slice reader). *)
 From FV Require Import Base.Bytes Codec.Value Codec.Dec Proofs.DecTotal.
 From FV Require Import Tie.Tie_FormatCodes Gen.FormatCodes Gen.CodecConsts Codec.Spec.
+From FV Require Import Codec.Composite Frame.AmqpFrame Proofs.AmqpFrameProofs.
 Open Scope N_scope.
 
 (** Tie to the source of this run: the regenerated format-code table is the
@@ -59,3 +60,12 @@ Example C04_former_panics_are_errors :
       [[192; 0; 0]; [193; 0; 0]; [208; 0; 0; 0; 0; 0; 0; 0; 0]; [224; 1; 1; 64]; [193; 2; 1; 64]]
   = [true; true; true; true; true].
 Proof. vm_compute. reflexivity. Qed.
+
+(** the typed layer on top of the value decoder - the field loop of a composite, an enum of composites, a
+    whole frame body - is total as well *)
+Theorem C04_typed_layer_total :
+  (forall fuel s bs, dec_composite fuel s bs <> Panic /\ ((length bs < fuel)%nat -> dec_composite fuel s bs <> OutOfFuel)) /\
+  (forall fuel tbl bs, dec_via_enum fuel tbl bs <> Panic /\ ((length bs < fuel)%nat -> dec_via_enum fuel tbl bs <> OutOfFuel)) /\
+  (forall bs, (forall fuel, dec_frame fuel bs <> Panic) /\ dec_frame (S (length bs)) bs <> OutOfFuel).
+Proof. exact (conj dec_composite_total (conj dec_via_enum_total dec_frame_total)). Qed.
+Print Assumptions C04_typed_layer_total.
